@@ -25,6 +25,7 @@ static Prog parseProg(const json& j) {
     if (k == "reg") p.push_back({'r', o[1].get<int>()});
     else if (k == "dereg") p.push_back({'d', o[1].get<int>()});
     else if (k == "up") p.push_back({'u', o[1].get<int>()});
+    else if (k == "unsub") p.push_back({'x', 0});
     else p.push_back({'q', 0});
   }
   return p;
@@ -50,7 +51,7 @@ struct World {
   inplace_stop_source up[3]; bool upCalled[3] = {};                     // upstream sources of the fused source / the adapted token
   std::unique_ptr<Fused> fused;                  // kind "fused"
   std::unique_ptr<unifex::inplace_stop_token_adapter<CustomTok>> adapter;   // kind "adapter"
-  inplace_stop_token adapted;
+  inplace_stop_token adapted; bool adapterGone = false;
   void setup() {
     if (scn->kind == "fused") { fused = std::make_unique<Fused>(); fused->register_callbacks(up[1].get_token(), up[2].get_token()); }
     else if (scn->kind == "adapter") { adapter = std::make_unique<unifex::inplace_stop_token_adapter<CustomTok>>(); adapted = adapter->subscribe(CustomTok{up[1].get_token()}); }
@@ -58,6 +59,7 @@ struct World {
   void teardown() {
     if (fused) fused->deregister_callbacks();
     if (adapter) adapter->unsubscribe();
+    adapter.reset();
   }
   inplace_stop_token token() { return fused ? fused->get_token() : (adapter ? adapted : src.get_token()); }
   bool stopRequested() { return token().stop_requested(); }
@@ -65,11 +67,12 @@ struct World {
   bool constructing[4] = {};
   int exec[4] = {};
   int retFalse = 0, retTrue = 0;
-  void query() { vrt::ev("{\"e\":\"Query\",\"c\":0,\"t\":%d,\"r\":%d}", vrt::self_id(), stopRequested() ? 1 : 0); }
+  void query() { if (adapterGone) return; vrt::ev("{\"e\":\"Query\",\"c\":0,\"t\":%d,\"r\":%d}", vrt::self_id(), stopRequested() ? 1 : 0); }
   void run(const Prog& p) {
     for (auto op : p) {
       if (op.k == 'r') {
         UNIFEX_VERIF_YIELD("r0");
+        if (adapterGone) continue;
         vrt::ev("{\"e\":\"RegBegin\",\"c\":%d,\"t\":%d,\"r\":-1}", op.c, vrt::self_id());
         constructing[op.c] = true;
         auto* p2 = new inplace_stop_callback<Body>(token(), Body{this, op.c});
@@ -83,6 +86,16 @@ struct World {
         auto* p2 = cb[op.c]; cb[op.c] = nullptr;
         delete p2;
         vrt::ev("{\"e\":\"DeregEnd\",\"c\":%d,\"t\":%d,\"r\":-1}", op.c, vrt::self_id());
+      } else if (op.k == 'x') {
+        // the owner of the adapter unsubscribes and releases it (as any_sender_of's operation state does on completion)
+        UNIFEX_VERIF_YIELD("d0");
+        if (!adapter) continue;
+        vrt::ev("{\"e\":\"UnsubBegin\",\"c\":0,\"t\":%d,\"r\":-1}", vrt::self_id());
+        adapter->unsubscribe();
+        vrt::ev("{\"e\":\"UnsubEnd\",\"c\":0,\"t\":%d,\"r\":-1}", vrt::self_id());
+        adapted = inplace_stop_token{};
+        adapter.reset();                  // frees the adapter's source and callback storage: a forwarding still in flight is a touch after free
+        adapterGone = true;
       } else if (op.k == 'u') {
         UNIFEX_VERIF_YIELD("q0");
         // only the first request_stop() on an upstream source runs its forwarding callback; a later call returns at
